@@ -47,8 +47,10 @@ MANIFEST = {
             "writers in the inventory paired with model events; the rig runs one REAL FolderObservation per folder name after every "
             "timestep and diffs flag, reported and cached value (family game-order: every 2-step (thorough 3-step) game over 13 "
             "request lists x durations, enumerated). The fix timing theorems are lifted over the dynamic operations BY NAME "
-            "(Props/C14DynTime.lean: C14_dyn_fix_not_early / _completes_on_time / _exact over installs, uninstalls of other items, "
-            "file-system creation, copies, database restores and tickDb).",
+            "(Props/C14DynTime.lean: C14_dyn_fix_not_early / _completes_on_time / _exact and C14_dyn_install_not_early / _request / _exact "
+            "over installs, uninstalls of other items, file-system creation, copies, database restores and tickDb). Finding F-C14-4 "
+            "(fixed): the folder observation showed a deleted namesake's cached health for a newly created folder; the repaired "
+            "observer (cache tied to the folder's uuid) is what the model follows (FolderObs.cachedId).",
     "note": "C14-specific: items are addressed by name. The item set is dynamic (Model/HealthDyn.lean, Props/C14Dyn.lean: "
             "application install/uninstall requests, SoftwareManager.install/uninstall, create folder/file requests, copy_file, "
             "the database restore) - structural operations leave surviving items untouched and new items start unscanned or "
@@ -58,8 +60,9 @@ MANIFEST = {
             "successful Python-API restore is described by the rig as an external write. Where two items of one parent share a name "
             "(created over a deleted one) the by-name restore operations of the model are not the code's first-match semantics: the "
             "rig ends the comparison of that trace there (counted) and relies on the identity-based implementation oracle. The fix "
-            "timing theorems are lifted over install/uninstall/tickDb steps by name (round 7); the install, folder-scan, folder-restore "
-            "and node-scan timing theorems are still stated for base-operation sequences. Game layer: "
+            "and installation timing theorems are lifted over install/uninstall/tickDb steps by name (round 7: C14_dyn_fix_exact, "
+            "C14_dyn_install_exact from the install REQUEST on); the folder-scan, folder-restore and node-scan timing theorems are still "
+            "stated for base-operation sequences. Game layer: "
             "PrimaiteGymEnv episodes on shipped and generated scenarios are checked by the identity-based oracle, not by the model. "
             "The node's reveal-to-red countdown (top-level `scan` request) is modelled because it shares a block of the timestep with "
             "the whole-node scan: C14_red_scan_independent - whatever stands on it, every operation leaves all health state as it "
